@@ -332,6 +332,9 @@ def check_recurrence(case, srv, stats):
         return
     if stats.known("C13/relation-" + rel, desc):
         return
+    # the relations that involve the plain BesselI inherit its recorded loss of digits above x = 700
+    if ("BesselI" in rel or rel.startswith("I(v-1")) and a[1] > 700 and stats.known("C13/besseli-loses-digits-where-exp-x-overflows", desc):
+        return
     raise Violation("%s: terms %s against %r differ by %.3g = %.3g eps * size" % (desc, lhs, rhs, err, err / (EPS * size)))
 
 
